@@ -23,7 +23,7 @@ fn ms(x: i64) -> Duration {
 
 pub struct C16;
 
-const C16_KINDS: &[&str] = &["interval", "interval-default-take", "timer", "delay", "timeout", "sample", "debounce", "delay-two-sources"];
+const C16_KINDS: &[&str] = &["interval", "interval-default-take", "timer", "delay", "timeout", "sample", "debounce", "delay-two-sources", "sample-two-triggers"];
 
 impl Family for C16 {
   fn name(&self) -> &'static str {
@@ -159,7 +159,11 @@ impl Family for C16 {
     let gaps_b_ns: Vec<u64> = gaps_b.iter().map(|g| *g as u64 * MS).collect();
     let script_b: Vec<Step> = script.iter().map(|s| if let Step::N(i) = s { Step::N(*i + 100) } else { s.clone() }).collect();
     let mut rec = Recorder::new();
-    rec.next_delays_ns = Arc::new(if slow_ticks { vec![tick_work as u64 * MS; 16] } else { delays.iter().map(|x| *x as u64 * MS).collect() });
+    // two trigger threads and a subscriber that is still busy with a sample when the other ticks
+    let rec_delays_two = kind == "sample-two-triggers";
+    rec.next_delays_ns = Arc::new(if rec_delays_two {
+      vec![trigger_ms as u64 * MS; 16]
+    } else if slow_ticks { vec![tick_work as u64 * MS; 16] } else { delays.iter().map(|x| *x as u64 * MS).collect() });
     let rec_b = Recorder::new();
     let src_log = Arc::new(Mutex::new(SrcLog::default()));
     let marks: Arc<Mutex<Vec<(&'static str, u64, u64)>>> = Arc::new(Mutex::new(Vec::new())); // (what, seq, t)
@@ -222,6 +226,13 @@ impl Family for C16 {
           mark("subscribe");
           let _sub = rec2.subscribe(&src().timeout(ms(d), schedulers::new_thread_scheduler()));
         }
+        "sample-two-triggers" => {
+          mark("subscribe");
+          let trig = observables::interval(ms(trigger_ms), schedulers::new_thread_scheduler()).merge(&[observables::interval(ms(trigger_ms + 17), schedulers::new_thread_scheduler())]);
+          let sub = rec2.subscribe(&src().sample(trig));
+          rt::thread::sleep(ms(t_term + 4 * trigger_ms + 1));
+          sub.unsubscribe();
+        }
         "sample" => {
           mark("subscribe");
           let sub = rec2.subscribe(&src().sample(observables::interval(ms(trigger_ms), schedulers::new_thread_scheduler())));
@@ -254,6 +265,7 @@ impl Family for C16 {
     let blame = match kind.as_str() {
       "interval-default-take" => "interval",
       "delay-two-sources" => "delay",
+      "sample-two-triggers" => "sample",
       k => k,
     };
     let mut v = Vec::new();
